@@ -337,9 +337,7 @@ Proof.
     + eqb_cases; cbn [andb app]; reflexivity.
     + eqb_cases; cbn [andb app]; reflexivity.
     + eqb_cases; cbn [andb app]; reflexivity.
-    + exists (svc_api n at_ ins ctx (ns_fresh s)). split.
-      * rewrite Hpa, nth_error_app2, Nat.sub_diag by lia. reflexivity.
-      * rewrite Hpa, <- Hfr. reflexivity.
+    + rewrite Hpa, nth_error_app2, Nat.sub_diag by lia. rewrite <- Hfr. reflexivity.
     + rewrite Hpa, <- Hfr. cbn [dict_get ident_eqb]. rewrite Nat.eqb_refl. reflexivity.
 Qed.
 
@@ -676,10 +674,10 @@ Proof.
     cbn [pp pt pa]. rewrite nplaces_call, ntrans_call, napis_call. f_equal. lia.
   - destruct Ok2 as [Hcb2 Hfr2]. split; autorewrite with netops; assumption.
   - cbn [wired]. split.
-    + exists A. split; [|reflexivity]. autorewrite with netops.
+    + autorewrite with netops.
       rewrite (gn_apis _ _ _ _ _ G2) by (unfold ns1; autorewrite with netops; rewrite app_length; cbn [List.length]; unfold p, pos_of; cbn [pa]; lia).
       unfold ns1. autorewrite with netops. unfold p, pos_of. cbn [pa].
-      rewrite nth_error_app2, Nat.sub_diag by lia. reflexivity.
+      rewrite nth_error_app2, Nat.sub_diag by lia. unfold A. rewrite Hfr. reflexivity.
     + pose proof (wired_block_agree ns2 (op_cb e (CbTF a) ns2) e [CbTF a] body Hfb bp a []) as Hx.
       rewrite Nat.eqb_refl in Hx. cbn [app] in Hx.
       apply Hx; [|right; reflexivity|exact W2].
@@ -917,3 +915,288 @@ Definition need_l (l : list xstmt) : nat := list_max (map need l).
 
 Lemma need_l_cons : forall x l, need_l (x :: l) = Nat.max (need x) (need_l l).
 Proof. reflexivity. Qed.
+
+Lemma nbind_ext : forall A B (m : NetModel.N A) (k k' : A -> NetModel.N B) s,
+    (forall a s1, k a s1 = k' a s1) -> nbind m k s = nbind m k' s.
+Proof. intros A B m k k' s H. unfold nbind. destruct (m s) as [[a s1]| | |]; auto. Qed.
+
+Section WalkEq.
+  Variable tasks : list task.
+
+  Definition P_stmt (fu : nat) : Prop :=
+    forall tn path s x, unfold_stmt tasks fu tn path s = Ok x -> frag x = true ->
+      forall g ctx t1 t2 ns, need x <= g ->
+        generate_stmt tasks g ctx tn path s t1 t2 false ns = pg_stmt ctx x t1 t2 ns.
+  Definition P_call (fu : nat) : Prop :=
+    forall tn pth c x, udo_call tasks fu tn pth c = Ok x -> frag x = true ->
+      forall g ctx t1 t2 ns, need x <= S g ->
+        generate_task_call tasks g c (site_of tn pth) ctx t1 t2 false ns = pg_stmt ctx x t1 t2 ns.
+
+  Lemma ucall_blk_length : forall fu tn ss i xs,
+      ucall_blk tasks fu tn i ss = Ok xs -> List.length xs = List.length ss.
+  Proof.
+    intros fu tn. induction ss as [|s r IH]; intros i xs H; cbn [ucall_blk] in H.
+    - inversion H. reflexivity.
+    - apply rbind_ok_inv in H. destruct H as (x & _ & H). apply rbind_ok_inv in H. destruct H as (xs' & H1 & H).
+      inversion H; subst. cbn [List.length]. f_equal. eapply IH. exact H1.
+  Qed.
+
+  Lemma A_blk : forall fu, P_stmt fu ->
+      forall g a tn n first last ss i xs,
+        ucall_blk tasks fu tn i ss = Ok xs -> forallb frag xs = true -> need_l xs <= g ->
+        i + List.length ss = n ->
+        forall prev acc ns, (i = 0 -> prev = first) ->
+          gs_go tasks g a tn [] n first last false i ss prev acc ns
+          = pg_block_go pg_stmt a n last i xs prev acc ns.
+  Proof.
+    intros fu HP g a tn n first last. induction ss as [|s r IH]; intros i xs H Hf Hn Hlen prev acc ns Hprev;
+      cbn [ucall_blk] in H.
+    - inversion H; subst. reflexivity.
+    - apply rbind_ok_inv in H. destruct H as (x & Hx & H). apply rbind_ok_inv in H. destruct H as (xs' & Hxs & H).
+      inversion H; subst xs. clear H. cbn [forallb] in Hf. apply andb_prop in Hf. destruct Hf as [Hfx Hfxs].
+      rewrite need_l_cons in Hn. cbn [gs_go pg_block_go]. apply nbind_ext. intros cur s1.
+      assert (Epr : (if Nat.ltb 1 n then prev else first) = prev).
+      { destruct (Nat.ltb_spec 1 n); [reflexivity|]. cbn [List.length] in Hlen. symmetry. apply Hprev. lia. }
+      cbv zeta. rewrite Epr. cbn [app].
+      unfold nbind. rewrite (HP tn [i] s x Hx Hfx g a prev cur s1) by lia.
+      destruct (pg_stmt a x prev cur s1) as [[ex s2]| | |]; try reflexivity.
+      apply IH; try assumption; try lia. cbn [List.length] in Hlen. lia.
+  Qed.
+
+  Lemma A_call : forall fu, P_stmt fu -> P_call fu.
+  Proof.
+    intros fu HP tn pth c x H Hf g ctx t1 t2 ns Hg. unfold udo_call in H.
+    destruct (find_task (c_name c) tasks) as [t|] eqn:Ft; [|discriminate H].
+    apply rbind_ok_inv in H. destruct H as (body & Hb & H). inversion H; subst x. clear H.
+    pose proof (frag_call _ _ _ _ Hf) as [_ Hfb].
+    assert (Hfa : forallb frag body = true) by (destruct body; [discriminate Hfb|exact Hfb]).
+    cbn [need] in Hg. fold (need_l body) in Hg.
+    destruct g as [|[|g2]]; try lia.
+    rewrite generate_task_call_S, Ft. cbn [pg_stmt].
+    apply nbind_ext. intros u s1. apply nbind_ext. intros a s2. apply nbind_ext. intros _ s3.
+    rewrite generate_statements_S. rewrite <- (ucall_blk_length _ _ _ _ _ Hb).
+    assert (Hl : 0 + List.length (t_body t) = List.length body).
+    { rewrite (ucall_blk_length _ _ _ _ _ Hb). reflexivity. }
+    unfold nbind.
+    rewrite (A_blk fu HP g2 a (t_name t) (List.length body) t1 t2 (t_body t) 0 body Hb Hfa ltac:(lia) Hl t1 [] s3 (fun _ => eq_refl)).
+    reflexivity.
+  Qed.
+
+  Lemma A_calls : forall fu, P_call fu ->
+      forall g ctx tn path t1 sync cs i xs,
+        ucalls tasks fu tn path i cs = Ok xs -> frag_brs xs = true -> need_l xs <= S g ->
+        forall ns, gp_calls tasks g ctx tn path t1 sync false i cs ns = pg_calls pg_stmt ctx t1 sync xs ns.
+  Proof.
+    intros fu HP g ctx tn path t1 sync. induction cs as [|c r IH]; intros i xs H Hf Hn ns; cbn [ucalls] in H.
+    - inversion H; subst. reflexivity.
+    - apply rbind_ok_inv in H. destruct H as (x & Hx & H). apply rbind_ok_inv in H. destruct H as (xs' & Hxs & H).
+      inversion H; subst xs. clear H. apply frag_brs_cons in Hf. destruct Hf as (_ & Hfx & Hfxs).
+      rewrite need_l_cons in Hn. cbn [gp_calls pg_calls]. unfold nbind.
+      rewrite (HP tn (path ++ [i]) c x Hx Hfx g ctx t1 sync ns) by lia.
+      destruct (pg_stmt ctx x t1 sync ns) as [[ex s2]| | |]; try reflexivity.
+      apply IH; try assumption. lia.
+  Qed.
+
+  Theorem A_stmt : forall fu, P_stmt fu.
+  Proof.
+    induction fu as [|fu IH]; [intros tn path s x H; discriminate H|].
+    pose proof (A_call fu IH) as HC.
+    intros tn path s x H Hf g ctx t1 t2 ns Hg.
+    destruct (unfold_frag_shape _ _ _ _ _ _ H Hf) as [(n & ins & o & ->)|[(c & ->)|(cs & ->)]].
+    - rewrite unfold_stmt_S_service in H. inversion H; subst x. cbn [need] in Hg.
+      destruct g as [|g']; [lia|]. rewrite generate_stmt_S_service. reflexivity.
+    - rewrite unfold_stmt_S_call in H.
+      assert (1 <= need x) by (destruct x; try discriminate Hf; cbn [need]; lia).
+      destruct g as [|g']; [lia|]. rewrite generate_stmt_S_call. apply (HC tn path c x H Hf). lia.
+    - rewrite unfold_stmt_S_par in H. apply rbind_ok_inv in H. destruct H as (bs & Hbs & H). inversion H; subst x. clear H.
+      cbn [need] in Hg. fold (need_l bs) in Hg. destruct g as [|g']; [lia|].
+      rewrite generate_stmt_S_par. cbn [pg_stmt].
+      apply nbind_ext. intros sync s1. apply nbind_ext. intros pfin s2.
+      unfold nbind. rewrite (A_calls fu HC g' ctx tn path t1 sync cs 0 bs Hbs (proj2 (frag_par _ Hf)) ltac:(lia)).
+      reflexivity.
+  Qed.
+End WalkEq.
+
+(* =========================================================================== *)
+(* the whole net                                                                *)
+(* =========================================================================== *)
+Definition p0 : pos := mkpos 2 2 1.
+Definition root_api : api :=
+  {| a_is_task := true; a_name := production_task; a_site := root_site; a_uuid := ITest 0; a_ctx := None;
+     a_in_loop := false; a_params := []; a_src := []; a_has_call := false |}.
+
+(* the net generate_petri_net builds for a production task whose unfolding is [body]:
+   place 0 = started, place 1 = finished, transition 0 enters the body and announces the
+   production task, transition 1 leaves it; the body occupies the counters from (2, 2, 1) *)
+Record NetOf (body : list xstmt) (N : NS) : Prop := {
+  no_places : ns_places N = repeat (Some 0) (2 + nplaces_l body);
+  no_ntrans : List.length (ns_trans N) = 2 + ntrans_b body;
+  no_ncbs : List.length (ns_cbs N) = 2 + ntrans_b body;
+  no_napis : List.length (ns_apis N) = 1 + napis_l body;
+  no_c1 : preN N 0 = [0] /\ postN N 0 = entries_b body p0 /\ cbsN N 0 = CbTS 0 :: startcbs_b body p0;
+  no_c2 : preN N 1 = [xplace_b body p0] /\ postN N 1 = [1] /\ cbsN N 1 = [CbTF 0];
+  no_root : nth_error (ns_apis N) 0 = Some root_api;
+  no_body : wired_block (wired N) N 0 [] body p0;
+  no_dict : Forall (fun kv => exists k, fst kv = IUuid k) (ns_place_dict N);
+  no_start : ns_start_place N = 0;
+  no_final : ns_final_place N = 1;
+  no_sched : ns_test_ids N = true /\ ns_awaited N = [EvStart] /\ ns_running N = false /\ ns_counters N = [] /\
+             ns_tid N = 0 /\ ns_sid N = 0 /\ ns_ls N = default_listeners /\ ns_obs N = [] /\ ns_log N = [] /\
+             ns_q N = 0 /\ ns_nss N = 0 /\ ns_nnot N = 0 /\ ns_pending N = []
+}.
+
+Definition op_sf (a b : nat) (s : NS) : NS := s <| ns_start_place := a |> <| ns_final_place := b |>.
+
+Lemma test_ids_op_fresh : forall s, ns_test_ids (op_fresh s) = ns_test_ids s.
+Proof. Transparent op_fresh. reflexivity. Qed.
+Global Opaque op_fresh.
+
+Lemma op_api_fresh : forall a s, op_api a s = op_api a s. Proof. reflexivity. Qed.
+
+(* the operations before the body is generated *)
+Definition ns_pre : NS :=
+  op_trans (op_place (op_in 0 0 (op_cb 0 (CbTS 0) (op_trans (op_place (op_api root_api (ns0 true))))))).
+
+Lemma generate_petri_net_eq : forall tasks g t,
+    find_task production_task tasks = Some t ->
+    generate_petri_net tasks g (ns0 true) =
+    match generate_statements tasks g 0 production_task [] (t_body t) 0 1 false ns_pre with
+    | Ok (_, s2) => Ok (tt, op_sf 0 1 (op_cb 1 (CbTF 0) (op_out 1 1 s2)))
+    | Fuel => Fuel | Exn k => Exn k | Unsupported => Unsupported
+    end.
+Proof.
+  intros tasks g t Ft. unfold generate_petri_net. rewrite Ft.
+  rewrite nbind_fresh. unfold nbind at 1. unfold nget at 1. rewrite test_ids_op_fresh.
+  change (ns_test_ids (ns0 true)) with true. cbv iota.
+  rewrite nbind_new_api.
+  rewrite (nbind_ok _ _ _ _ _ _ _ (create_place_eq _)).
+  rewrite (nbind_ok _ _ _ _ _ _ _ (create_transition_eq _)).
+  rewrite (nbind_ok _ _ _ _ _ _ _ (add_callback_eq _ _ _)).
+  rewrite (nbind_ok _ _ _ _ _ _ _ (add_input_eq _ _ _)).
+  rewrite (nbind_ok _ _ _ _ _ _ _ (create_place_eq _)).
+  rewrite (nbind_ok _ _ _ _ _ _ _ (create_transition_eq _)).
+  autorewrite with netops. cbn [ns_apis ns_places ns_trans ns0 List.length app].
+  unfold nbind at 1. fold root_api. fold ns_pre.
+  destruct (generate_statements tasks g 0 production_task [] (t_body t) 0 1 false ns_pre) as [[ex s2]| | |]; reflexivity.
+Qed.
+
+Lemma ns_pre_facts :
+  pos_of ns_pre = p0 /\ okns ns_pre /\
+  preN ns_pre 0 = [0] /\ postN ns_pre 0 = [] /\ cbsN ns_pre 0 = [CbTS 0] /\
+  preN ns_pre 1 = [] /\ postN ns_pre 1 = [] /\ cbsN ns_pre 1 = [] /\
+  nth_error (ns_apis ns_pre) 0 = Some root_api /\ ns_place_dict ns_pre = [] /\
+  rest_of ns_pre = rest_of (ns0 true) /\ List.length (ns_trans ns_pre) = 2.
+Proof.
+  unfold ns_pre, pos_of, okns. autorewrite with netops.
+  cbn [ns0 ns_places ns_trans ns_cbs ns_apis ns_fresh ns_place_dict app List.length].
+  assert (P : forall j, preN (ns0 true) j = []) by (intros [|j]; reflexivity).
+  assert (Q : forall j, postN (ns0 true) j = []) by (intros [|j]; reflexivity).
+  assert (C : forall j, cbsN (ns0 true) j = []) by (intros [|j]; reflexivity).
+  rewrite !P, !Q, !C. cbn. repeat split; reflexivity.
+Qed.
+
+Lemma agree_op_sf : forall a b N p dt da e, agree N (op_sf a b N) p dt da e [].
+Proof.
+  intros. split; [|split].
+  - intros j _. split; [reflexivity|]. split; [reflexivity|].
+    change (cbsN (op_sf a b N) j) with (cbsN N j). destruct (Nat.eqb e j); rewrite app_nil_r; reflexivity.
+  - intros j _. reflexivity.
+  - exists []. split; [reflexivity|constructor].
+Qed.
+
+Lemma repeat_snoc2 : forall n, [Some 0; Some 0] ++ repeat (Some 0) n = repeat (@Some nat 0) (2 + n).
+Proof. reflexivity. Qed.
+
+Lemma rest_of_inj : forall s s', rest_of s = rest_of s' ->
+    ns_start_place s = ns_start_place s' /\ ns_final_place s = ns_final_place s' /\
+    ns_test_ids s = ns_test_ids s' /\ ns_awaited s = ns_awaited s' /\ ns_running s = ns_running s' /\
+    ns_counters s = ns_counters s' /\ ns_tid s = ns_tid s' /\ ns_sid s = ns_sid s' /\ ns_ls s = ns_ls s' /\
+    ns_obs s = ns_obs s' /\ ns_log s = ns_log s' /\ ns_q s = ns_q s' /\ ns_nss s = ns_nss s' /\
+    ns_nnot s = ns_nnot s' /\ ns_pending s = ns_pending s'.
+Proof.
+  intros s s' H. unfold rest_of in H.
+  injection H as H1 H2 H3 H4 H5 H6 H7 H8 H9 H10 H11 H12 H13 H14 H15. repeat split; assumption.
+Qed.
+
+Theorem net_init_spec : forall tasks fu body,
+    unfold_program tasks fu = Ok body -> frag_block body = true -> need_l body < 200 ->
+    exists N, net_init tasks true = Ok N /\ NetOf body N.
+Proof.
+  intros tasks fu body Hu Hf Hneed. rewrite unfold_program_eq in Hu.
+  destruct (find_task production_task tasks) as [t|] eqn:Ft; [|discriminate Hu].
+  destruct ns_pre_facts as (Ppre & Okpre & A1 & A2 & A3 & B1 & B2 & B3 & Hroot & Hdict & Hrest & Hlen).
+  assert (Hfa : forallb frag body = true) by (destruct body; [discriminate Hf|exact Hf]).
+  assert (Hl : 0 + List.length (t_body t) = List.length body).
+  { rewrite (ucall_blk_length _ _ _ _ _ _ Hu). reflexivity. }
+  destruct (gen_block body Hf 0 0 1 ns_pre Okpre ltac:(lia) ltac:(lia)) as (ns2 & E2 & G2 & P2 & Ok2 & W2).
+  rewrite Ppre in E2, G2, P2, W2.
+  unfold net_init. rewrite (generate_petri_net_eq tasks 200 t Ft).
+  change 200 with (S 199) at 1. rewrite generate_statements_S.
+  rewrite <- (ucall_blk_length _ _ _ _ _ _ Hu).
+  rewrite (A_blk tasks fu (A_stmt tasks fu) 199 0 production_task (List.length body) 0 1 (t_body t) 0 body Hu Hfa
+                 ltac:(lia) Hl 0 [] ns_pre (fun _ => eq_refl)).
+  fold (pg_block 0 body 0 1). rewrite E2.
+  set (N := op_sf 0 1 (op_cb 1 (CbTF 0) (op_out 1 1 ns2))).
+  exists N. split; [reflexivity|].
+  unfold Gen in G2.
+  assert (L2 : List.length (ns_trans ns2) = 2 + ntrans_b body).
+  { pose proof (f_equal pt P2) as E. unfold pos_of, adv_b, p0 in E. cbn [pt] in E. exact E. }
+  assert (L2c : List.length (ns_cbs ns2) = 2 + ntrans_b body) by (destruct Ok2 as [Hc _]; rewrite Hc; exact L2).
+  assert (G23 : GenF ns2 (op_cb 1 (CbTF 0) (op_out 1 1 ns2))
+                     (fun j => [] ++ []) (fun j => (if Nat.eqb j 1 then [1] else []) ++ [])
+                     (fun j => [] ++ (if Nat.eqb j 1 then [CbTF 0] else []))).
+  { eapply GenF_trans; [apply GenF_op_out|apply GenF_op_cb]. autorewrite with netops. destruct Ok2 as [Hc _]. exact Hc. }
+  assert (G13 := GenF_trans _ _ _ _ _ _ _ _ _ G2 G23).
+  constructor.
+  - change (ns_places N) with (ns_places (op_cb 1 (CbTF 0) (op_out 1 1 ns2))). autorewrite with netops.
+    rewrite (gn_places _ _ _ _ _ G2).
+    pose proof (f_equal pp Ppre) as Epp. unfold pos_of, p0 in Epp. cbn [pp] in Epp.
+    pose proof (f_equal pp P2) as Epp2. unfold pos_of, adv_b, p0 in Epp2. cbn [pp] in Epp2.
+    rewrite Epp, Epp2.
+    assert (Hp : ns_places ns_pre = [Some 0; Some 0]).
+    { unfold ns_pre. autorewrite with netops. reflexivity. }
+    rewrite Hp. replace (2 + nplaces_l body - 2) with (nplaces_l body) by lia. reflexivity.
+  - change (ns_trans N) with (ns_trans (op_cb 1 (CbTF 0) (op_out 1 1 ns2))). autorewrite with netops. exact L2.
+  - change (ns_cbs N) with (ns_cbs (op_cb 1 (CbTF 0) (op_out 1 1 ns2))). autorewrite with netops. exact L2c.
+  - change (ns_apis N) with (ns_apis (op_cb 1 (CbTF 0) (op_out 1 1 ns2))). autorewrite with netops.
+    pose proof (f_equal pa P2) as E. unfold pos_of, adv_b, p0 in E. cbn [pa] in E. exact E.
+  - change (preN N 0) with (preN (op_cb 1 (CbTF 0) (op_out 1 1 ns2)) 0).
+    change (postN N 0) with (postN (op_cb 1 (CbTF 0) (op_out 1 1 ns2)) 0).
+    change (cbsN N 0) with (cbsN (op_cb 1 (CbTF 0) (op_out 1 1 ns2)) 0).
+    rewrite (gn_pre _ _ _ _ _ G13 0), (gn_post _ _ _ _ _ G13 0), (gn_cbs _ _ _ _ _ G13 0) by lia.
+    rewrite A1, A2, A3. cbn [Nat.eqb app]. rewrite !app_nil_r. auto.
+  - change (preN N 1) with (preN (op_cb 1 (CbTF 0) (op_out 1 1 ns2)) 1).
+    change (postN N 1) with (postN (op_cb 1 (CbTF 0) (op_out 1 1 ns2)) 1).
+    change (cbsN N 1) with (cbsN (op_cb 1 (CbTF 0) (op_out 1 1 ns2)) 1).
+    rewrite (gn_pre _ _ _ _ _ G13 1), (gn_post _ _ _ _ _ G13 1), (gn_cbs _ _ _ _ _ G13 1) by lia.
+    rewrite B1, B2, B3. cbn [Nat.eqb app]. rewrite ?app_nil_r. auto.
+  - change (ns_apis N) with (ns_apis (op_cb 1 (CbTF 0) (op_out 1 1 ns2))). autorewrite with netops.
+    rewrite (gn_apis _ _ _ _ _ G2).
+    + exact Hroot.
+    + pose proof (f_equal pa Ppre) as E. unfold pos_of, p0 in E. cbn [pa] in E. lia.
+  - pose proof (exit_range_b body Hf p0) as Hex. cbn [p0 pt] in Hex.
+    pose proof (wired_block_agree (op_cb 1 (CbTF 0) (op_out 1 1 ns2)) N 0 [] body Hf p0 0 []) as HxN.
+    rewrite app_nil_l in HxN. replace (if Nat.eqb 0 (exit_b body p0) then [] else []) with (@nil cb) in HxN
+      by (destruct (Nat.eqb 0 (exit_b body p0)); reflexivity).
+    apply HxN; [apply agree_op_sf|left; left; cbn [p0 pt]; lia|].
+    pose proof (wired_block_agree ns2 (op_cb 1 (CbTF 0) (op_out 1 1 ns2)) 0 [] body Hf p0 0 []) as Hx.
+    rewrite app_nil_l in Hx. replace (if Nat.eqb 0 (exit_b body p0) then [] else []) with (@nil cb) in Hx
+      by (destruct (Nat.eqb 0 (exit_b body p0)); reflexivity).
+    apply Hx; [|left; left; cbn [p0 pt]; lia|exact W2].
+    eapply GenF_agree; [exact G23| | |].
+    + intros j Hj. cbn [p0 pt] in Hj. assert (E1 : Nat.eqb j 1 = false) by (apply Nat.eqb_neq; lia).
+      cbn beta. rewrite E1. auto.
+    + cbn [p0 pt]. lia.
+    + pose proof (f_equal pa P2) as E. unfold pos_of, adv_b, p0 in E. cbn [pa] in E. cbn [p0 pa]. lia.
+  - change (ns_place_dict N) with (ns_place_dict (op_cb 1 (CbTF 0) (op_out 1 1 ns2))). autorewrite with netops.
+    destruct (gn_dict _ _ _ _ _ G2) as (d & Hd & Hk). rewrite Hd, Hdict, app_nil_r.
+    eapply Forall_impl; [|exact Hk]. intros kv (k & E & _). exists k. exact E.
+  - reflexivity.
+  - reflexivity.
+  - assert (R : rest_of (op_cb 1 (CbTF 0) (op_out 1 1 ns2)) = rest_of (ns0 true)).
+    { autorewrite with netops. rewrite (gn_rest _ _ _ _ _ G2). exact Hrest. }
+    apply rest_of_inj in R.
+    destruct R as (_ & _ & R3 & R4 & R5 & R6 & R7 & R8 & R9 & R10 & R11 & R12 & R13 & R14 & R15).
+    repeat match goal with |- context [?f N] => change (f N) with (f (op_cb 1 (CbTF 0) (op_out 1 1 ns2))) end.
+    rewrite R3, R4, R5, R6, R7, R8, R9, R10, R11, R12, R13, R14, R15. repeat split; reflexivity.
+Qed.
